@@ -43,6 +43,16 @@ CHECKS = {
             "bounded liveness, per-source order, out-of-order events dropped and reported, idle handlers only when idle.",
             "Bounded: arrival/timestamp grid, <=4 arrivals, virtual horizon 0.3 s (30 poll periods); virtual clock "
             "replaces utc_now and loop time.", "DESIGN.md section 4, C15"),
+    "C03": ("stateless deviation-bounded schedule exploration of a complete backtest (real dispatcher + real exchange) on a "
+            "virtual event loop, plus differential comparison across max_concurrent, repetitions and hash seeds",
+            "Every scenario of 2-3 (quick) / 2-4 (thorough) pairs x shared/staggered timestamps x one source per pair or "
+            "one merged source x strategy subscribed before/after the bar sources x strategy path (bar subscription, "
+            "trading signal, order event) x passive second subscribers x single or fund-competing double placements x "
+            "market/limit: clause 1 on every handler suspension pattern within the deviation bound for max_concurrent "
+            "1/2/3/50; clause 2 by comparing fill history, placements, rejections and balances across max_concurrent, "
+            "across two runs, and across child processes with other PYTHONHASHSEED values.",
+            "Bounded: flat prices, 1-unit orders, <=4 pairs, 3 bars per pair, deviation bound 1 (quick) / 2 (thorough); "
+            "2 (quick) / 4 (thorough) extra hash seeds.", "DESIGN.md section 4, C03"),
 }
 NOT_YET = "check not built yet (see DESIGN.md section 7 for the build order); no claim is made"
 
